@@ -171,8 +171,11 @@ def load_stl_ascii(file_obj):
     for _ in range(len(raw_mixed)):
         # find the start of the solid chunk
         solid_start = raw_lower.find("solid", position)
+        # the rest of that line is the name, which is free text and
+        # may contain any keyword: the chunk ends after that line
+        name_end = max(position, raw_lower.find("\n", solid_start))
         # find the end of the solid chunk
-        solid_end = raw_lower.find("endsolid", position)
+        solid_end = raw_lower.find("endsolid", name_end)
 
         # on the next loop we don't have to check the text we've consumed
         position = solid_end + len("endsolid")
@@ -188,8 +191,10 @@ def load_stl_ascii(file_obj):
         # get the chunk of text with this particular solid
         solid = raw_lower[solid_start:solid_end]
 
+        # the text after the `solid <name>` line
+        body = solid[solid.find("\n") + 1 :]
         # extract the vertices
-        vertex_text = solid.split("vertex")
+        vertex_text = body.split("vertex")
         vertices = np.fromstring(
             " ".join(line[: line.find("\n")] for line in vertex_text[1:]),
             sep=" ",
@@ -207,7 +212,7 @@ def load_stl_ascii(file_obj):
         # try to extract the face normals the same way
         face_normals = None
         try:
-            normal_text = solid.split("normal")
+            normal_text = body.split("normal")
             normals = np.fromstring(
                 " ".join(line[: line.find("\n")] for line in normal_text[1:]),
                 sep=" ",
